@@ -19,6 +19,7 @@ let channels : (string * ((string * string) list -> string)) list = [
   ("llpcomb", Chan_llp.run_comb);
   ("llpranks", Chan_llp.run_ranks);
   ("llpinv", Chan_llp.run_inv);
+  ("llpbig", Chan_llp.run_big);
   ("llprun", Chan_llp.run_run);
   ("ess", Chan_ess.run);
   ("sort", Chan_sort.run_sort);
